@@ -151,3 +151,62 @@ def rules(t, *a, **kw):
     out = _rules_C14_w5d(t, *a, **kw)
     out.append(W5.budget_field_prov(t, "C14.f"))
     return out
+
+
+def walk_expr(o, depth=0):
+    """all sub-expressions of an origin expression"""
+    if depth > 40 or not isinstance(o, tuple) or not o: return
+    yield o
+    for x in o:
+        if isinstance(x, tuple): yield from walk_expr(x, depth + 1)
+
+
+def _root_storage(o):
+    """the container an expression reads from / borrows: refs, derefs and the pure view adaptors are looked through"""
+    VIEW = ("deref", "deref_mut", "as_slice", "as_mut_slice", "as_mut", "as_ref", "iter", "iter_mut", "into_iter", "borrow", "borrow_mut", "enumerate", "by_ref", "next")
+    for _ in range(24):
+        o = strip(o)
+        if isinstance(o, tuple) and o[0] == "call" and method_of(o[1]) in VIEW and len(o) > 2 and o[2]: o = o[2][0]; continue
+        if isinstance(o, tuple) and o[0] in ("field", "as", "index") and isinstance(strip(o[1]), tuple) and strip(o[1])[0] == "call" and method_of(strip(o[1])[1]) in VIEW: o = strip(o[1]); continue
+        break
+    return o
+
+
+def config_order_kept(t, rid):
+    """ORDER-SOURCE: the send order is the *configuration* order only if the list that from_channels walks while it appends to channel_send_order
+    is still in the order the caller gave it: nothing reorders, removes from or inserts into that list (sort*, reverse, swap, rotate, retain,
+    dedup, ..), in from_channels itself or in a private helper it hands the list to (helpers are inlined by the fact loader)."""
+    r = RuleResult(rid, "the configuration list that determines channel_send_order is walked in the order given (never sorted, reversed or edited before the walk)", floor=0)
+    REORDER = ("sort", "sort_by", "sort_by_key", "sort_by_cached_key", "sort_unstable", "sort_unstable_by", "sort_unstable_by_key", "reverse", "swap", "swap_remove", "rotate_left",
+               "rotate_right", "retain", "retain_mut", "dedup", "dedup_by", "dedup_by_key", "select_nth_unstable", "select_nth_unstable_by", "select_nth_unstable_by_key",
+               "remove", "insert", "truncate", "pop", "clear", "split_off", "push", "extend", "append", "fill", "fill_with", "swap_with_slice", "copy_from_slice", "clone_from_slice")
+    fc = t.fn("RenetClient::from_channels")
+    roots = set()
+    for g in fn_and_closures(t, fc):
+        for c in t.calls(r"Vec.*::push$", g):
+            if "ChannelOrder" not in fmt(t.arg(c, 1)): continue
+            # the element pushed comes from an iteration; its root container is what must keep its order
+            for sub in walk_expr(resolved(t, t.arg(c, 1), g)):
+                if isinstance(sub, tuple) and sub[0] == "call" and method_of(sub[1]) == "next" and len(sub) > 2 and sub[2]:
+                    roots.add(norm(_root_storage(sub[2][0])))
+    roots = {x for x in roots if isinstance(x, tuple)}
+    if not roots: r.samples.append("configuration walk not resolved: not decided"); return r
+    for g in fn_and_closures(t, fc):
+        for x in t.sites(g):
+            n = x.node
+            if n["k"] != "call" or not n["args"]: continue
+            m = method_of(callee_name(n))
+            if m not in REORDER: continue
+            recv = norm(_root_storage(resolved(t, t.arg(x, 0), g)))
+            if recv in roots:
+                r.site(x, m)
+                r.bad(f"config-reordered|{m}", x, f"the channel configuration list is changed by {short(callee_name(n))}() before/while channel_send_order is derived from it: the send order is no longer the order the application configured (a lower-priority channel can be served first and take the tick's budget)")
+    r.sites += len(roots); r.samples.append(f"{len(roots)} configuration walk(s): " + "; ".join(fmt(x)[:60] for x in roots))
+    return r
+
+
+_rules_C14_w8 = rules
+def rules(t, *a, **kw):
+    out = _rules_C14_w8(t, *a, **kw)
+    out.append(config_order_kept(t, "C14.g"))
+    return out
